@@ -161,6 +161,49 @@ func c20R1(c *Ctx) {
 		okBase := strings.Contains(baseD, "readfile") || strings.Contains(baseD, "base")
 		okTop := strings.Contains(topD, "top") || strings.Contains(topD, "cfg") || strings.Contains(topD, "dynamic")
 		c.Check(okBase && okTop && !strings.Contains(topD, "readfile") && !strings.Contains(topD, "base"), "C20.R1", "caller "+cs.Fn.Key()+" binds overlay and base in the right order", p.Pos(cs.Call), cs.Fn.Key(), "MergeConfigAndUnmarshal(<node overlay>, <cluster document>)", "overlay="+topD+" base="+baseD)
+		// the base is the document as it was read: the variable handed over is defined once (a decode /
+		// re-encode round trip in between would drop unknown keys and mask secret-typed ones)
+		for i, role := range []string{"overlay", "base"} {
+			arg := ast.Unparen(cs.Call.Args[i])
+			if call, ok := arg.(*ast.CallExpr); ok && len(call.Args) == 1 {
+				if tv, ok := cinfo.Types[call.Fun]; ok && tv.IsType() {
+					arg = ast.Unparen(call.Args[0])
+				}
+			}
+			o := identObj(cinfo, arg)
+			if o == nil {
+				continue
+			}
+			var bad []string
+			pos := p.Pos(cs.Call)
+			for _, d := range varDefs(cs.Fn, o) {
+				rhs := d.rhs
+				if rhs == nil {
+					if as, ok := d.node.(*ast.AssignStmt); ok && len(as.Rhs) == 1 {
+						rhs = as.Rhs[0]
+					}
+				}
+				if rhs == nil {
+					continue
+				}
+				ast.Inspect(rhs, func(k ast.Node) bool {
+					call, ok := k.(*ast.CallExpr)
+					if !ok {
+						return true
+					}
+					if f := Callee(cinfo, call); f != nil && f.Pkg() != nil {
+						pp := f.Pkg().Path()
+						enc := strings.HasPrefix(f.Name(), "Marshal") || strings.HasPrefix(f.Name(), "Encode")
+						if enc && (strings.HasPrefix(pp, "encoding/") || strings.Contains(pp, "json") || strings.Contains(pp, "yaml")) {
+							bad = append(bad, f.FullName()+" at "+p.Pos(call))
+							pos = p.Pos(d.node)
+						}
+					}
+					return true
+				})
+			}
+			c.Check(len(bad) == 0, "C20.R1", "caller "+cs.Fn.Key()+" hands over the "+role+" document as read", pos, cs.Fn.Key(), "no definition of "+o.Name()+" is the output of an encoder (the document is not decoded and re-encoded on its way to the merge)", strings.Join(bad, "; "))
+		}
 	}
 	// ConfigFromConfigMap: eni_conf is the base, the per-node dynamic config the overlay
 	cm := p.Func(daemonTypesPkg, "ConfigFromConfigMap")
@@ -357,10 +400,10 @@ func c20R2(c *Ctx) {
 	c.Check(len(missing) == 0 && hasDefaultErr, "C20.R2", "datapath switch is exhaustive and rejects anything else", p.Pos(sw), fn.Key(), "cases veth, ipvlan, datapathv2 + default: return error", fmt.Sprintf("missing=%v defaultError=%v", missing, hasDefaultErr))
 	// … and it is always written once a datapath was selected: otherwise the value of the input
 	// (any spelling the user chose) would survive into the generated configuration
-	{
+	for _, gk := range []struct{ key, what string }{{"eniip_virtual_type", "the virtual type"}, {"bandwidth_mode", "the bandwidth mode"}} {
 		var vsets []*ast.CallExpr
 		for _, s := range sets {
-			if s.key == "eniip_virtual_type" {
+			if s.key == gk.key {
 				vsets = append(vsets, s.call)
 			}
 		}
@@ -389,7 +432,7 @@ func c20R2(c *Ctx) {
 			ok, known := isSuccessReturn(info, sig, ret)
 			return known && !ok // error returns abandon the generation
 		})
-		c.Check(len(vsets) > 0 && w == nil, "C20.R2", "the virtual type is written whenever a datapath was selected", p.Pos(sw), fn.Key(), "must-pass: switch datapath → plugin.Set(…, \"eniip_virtual_type\") → next plugin / success return", "path: "+p.describePath(w))
+		c.Check(len(vsets) > 0 && w == nil, "C20.R2", gk.what+" is written whenever a datapath was selected", p.Pos(sw), fn.Key(), "must-pass: switch datapath → plugin.Set(…, \""+gk.key+"\") → next plugin / success return (a value of the input never survives)", "path: "+p.describePath(w))
 	}
 	// the virtual type written is the selected datapath
 	for _, s := range sets {
